@@ -467,46 +467,53 @@ theorem earlier_commits_intact_workload (ms : List MDesc) (fs : FS) (j : Nat) (n
 
 /-! ### log.csv -/
 
-/-- **Log messages come back in order and verbatim** — for any number of
-    appended messages with arbitrary content (quotes, commas, line breaks,
-    …), under the side condition that a message is not one of pandas' NA
-    strings (those come back as NaN, `none`) and that context path, date and
-    severity contain no separator, quote or line break. -/
-theorem log_roundtrip_partial (rs : List LogRec) (h : ∀ r ∈ rs, r.Safe) :
-    readLog (logHeader ++ (rs.map LogRec.line).flatten)
-      = .ok (rs.map fun r => if isNA r.message then none else some r.message) := by
-  have hp : csvParse (logHeader ++ (rs.map LogRec.line).flatten)
-      = some (["path".toList, "time".toList, "severity".toList, "message".toList]
-          :: rs.map fun r => [r.path, r.date, r.severity, r.message]) := by
-    simp only [csvParse, List.foldl_append, fold_header, fold_log rs h]
-    simp [csvFinish, atRecordStart]
-  simp only [readLog, hp]
+/-- **Log messages come back in order and verbatim** (full statement, the code
+    since fix 68c0db2) — for any number of appended messages with arbitrary
+    content (quotes, commas, line breaks, `NA`, empty, numerals, …), context
+    path, date and severity containing no separator, quote or line break:
+    `retrieve_log` returns exactly the stored messages, in append order. -/
+theorem log_roundtrip (rs : List LogRec) (h : ∀ r ∈ rs, r.Safe) :
+    readLog (logHeader ++ (rs.map LogRec.line).flatten) = .ok (rs.map fun r => some r.message) := by
+  simp only [readLog, readLogWith, csvParse_log rs h]
   have hany : (rs.map fun r => [r.path, r.date, r.severity, r.message]).any (fun r => decide (4 < r.length)) = false := by
     simp [List.any_eq_false]
   simp [hany]
 
-/-- `log_order`: the rows are exactly the messages, in append order. -/
-theorem log_order (rs : List LogRec) (h : ∀ r ∈ rs, r.Safe) (hna : ∀ r ∈ rs, isNA r.message = false) :
-    readLog (logHeader ++ (rs.map LogRec.line).flatten) = .ok (rs.map fun r => some r.message) := by
-  rw [log_roundtrip_partial rs h]
-  congr 1
-  apply List.map_congr_left
-  intro r hr; simp [hna r hr]
+/-- `log_order`: the k-th row is the k-th appended message. -/
+theorem log_order (rs : List LogRec) (h : ∀ r ∈ rs, r.Safe) (k : Nat) :
+    (readLog (logHeader ++ (rs.map LogRec.line).flatten)).toOption.map (fun ms => ms[k]?)
+      = some (rs[k]?.map fun r => some r.message) := by
+  rw [log_roundtrip rs h]; simp [Except.toOption]
 
-/-- The full statement is false of the code: `"NA"`, `""`, `"nan"` are lost. -/
+/-- The pre-repair reader (`pd.read_csv(log_path)` with pandas' defaults, before
+    68c0db2) satisfied only the partial statement: NA strings came back as NaN
+    (`none`) … -/
+theorem log_roundtrip_partial_prerepair (rs : List LogRec) (h : ∀ r ∈ rs, r.Safe) :
+    readLogWith true (logHeader ++ (rs.map LogRec.line).flatten)
+      = .ok (rs.map fun r => if isNA r.message then none else some r.message) := by
+  simp only [readLogWith, csvParse_log rs h]
+  have hany : (rs.map fun r => [r.path, r.date, r.severity, r.message]).any (fun r => decide (4 < r.length)) = false := by
+    simp [List.any_eq_false]
+  simp [hany]
+
+/-- … witnesses: `"NA"`, `""`, `"nan"` were lost by the pre-repair reader and
+    are returned verbatim by the code as it is. -/
 theorem log_na_witness :
-    readLog (logHeader ++ logLine "ctx".toList "2026".toList "info".toList "NA".toList) = .ok [none] ∧
-    readLog (logHeader ++ logLine "ctx".toList "2026".toList "info".toList []) = .ok [none] ∧
-    readLog (logHeader ++ logLine "ctx".toList "2026".toList "info".toList "nan".toList) = .ok [none] := by
+    (readLogWith true (logHeader ++ logLine "ctx".toList "2026".toList "info".toList "NA".toList) = .ok [none] ∧
+     readLogWith true (logHeader ++ logLine "ctx".toList "2026".toList "info".toList []) = .ok [none] ∧
+     readLogWith true (logHeader ++ logLine "ctx".toList "2026".toList "info".toList "nan".toList) = .ok [none]) ∧
+    (readLog (logHeader ++ logLine "ctx".toList "2026".toList "info".toList "NA".toList) = .ok [some "NA".toList] ∧
+     readLog (logHeader ++ logLine "ctx".toList "2026".toList "info".toList []) = .ok [some []]) := by
   decide
 
-/-- A torn append makes the whole log unreadable (all committed messages
-    lost to the reader) or shows a partial row as a log entry. -/
+/-- Still false of the code: a torn append makes the whole log unreadable (all
+    committed messages lost to the reader) or shows a partial row — now with
+    an empty message — as a log entry. -/
 theorem log_torn_witness :
     let l1 := logLine "ctx".toList "2026".toList "info".toList "first".toList
     let l2 := logLine "ctx".toList "2026".toList "info".toList "second".toList
     readLog (logHeader ++ l1 ++ l2.take 18) = .error .parserError ∧
-    readLog (logHeader ++ l1 ++ l2.take 6) = .ok [some "first".toList, none] := by
+    readLog (logHeader ++ l1 ++ l2.take 6) = .ok [some "first".toList, some []] := by
   decide
 
 end Pharmpy.C16
